@@ -175,6 +175,15 @@ fn main() {
             doc["plan"] = serde_json::to_value(&min).unwrap();
             std::fs::write(&f, serde_json::to_vec_pretty(&doc).unwrap()).expect("write");
         }
+        "plan" => {
+            // sossim plan <family> <prop> <seed> <tier>: print the generated plan
+            let family = args.get(2).expect("family");
+            let prop = args.get(3).expect("prop");
+            let seed: u64 = args.get(4).expect("seed").parse().expect("seed");
+            let tier = Tier::parse(args.get(5).map(|s| s.as_str()).unwrap_or("quick"));
+            let plan = generate(family, prop, seed, tier);
+            println!("{}", serde_json::to_string_pretty(&plan).unwrap());
+        }
         "list" => {
             for id in registry::all_ids() {
                 println!("{id}");
